@@ -103,6 +103,65 @@ pub fn live(seed: u64, n: usize, out: &mut dyn Write) {
             stall_ms.store(0, Ordering::SeqCst);
             continue;
         }
+        if k % 6 == 1 {
+            // a thread issues its first tracing call (which creates and registers its command
+            // channel) while a collector cycle is draining the registered channels: everything
+            // it records must still be delivered.  The drain is caught with the Pop yield point;
+            // the new thread is given 100 ms inside it (it may have to wait for the drain to end).
+            let started = Arc::new(AtomicBool::new(false));
+            let done = Arc::new(AtomicBool::new(false));
+            let (st2, dn2) = (started.clone(), done.clone());
+            let handle: Arc<Mutex<Option<std::thread::JoinHandle<()>>>> = Arc::new(Mutex::new(None));
+            let h2 = handle.clone();
+            fastrace::verif::set_callback(Some(Arc::new(move |p| {
+                if p == fastrace::verif::Point::Pop && !st2.swap(true, Ordering::SeqCst) {
+                    let dn3 = dn2.clone();
+                    let jh = std::thread::spawn(move || {
+                        fastrace::verif::without_yield(|| {
+                            let root = Span::root(format!("late-root-{k}"), SpanContext::new(TraceId(trace), SpanId(9)));
+                            {
+                                let _g = root.set_local_parent();
+                                let _l = LocalSpan::enter_with_local_parent(format!("late-local-{k}"));
+                            }
+                            let child = Span::enter_with_parent(format!("late-child-{k}"), &root);
+                            drop(child);
+                            drop(root);
+                        });
+                        dn3.store(true, Ordering::SeqCst);
+                    });
+                    *h2.lock().unwrap() = Some(jh);
+                    let t0 = Instant::now();
+                    while !dn2.load(Ordering::SeqCst) && t0.elapsed() < Duration::from_millis(100) {
+                        std::thread::sleep(Duration::from_millis(1));
+                    }
+                }
+            })));
+            // something for the drain to pop
+            let warm = Span::root(format!("late-warm-{k}"), SpanContext::new(TraceId(trace ^ 1), SpanId(3)));
+            drop(warm);
+            let t0 = Instant::now();
+            while !started.load(Ordering::SeqCst) && t0.elapsed() < Duration::from_millis(3000) {
+                std::thread::sleep(Duration::from_millis(1));
+                if t0.elapsed() > Duration::from_millis(200) {
+                    // keep the drain supplied in case the first cycle had already passed
+                    drop(Span::root(format!("late-warm2-{k}"), SpanContext::new(TraceId(trace ^ 1), SpanId(4))));
+                    std::thread::sleep(Duration::from_millis(20));
+                }
+            }
+            let caught = started.load(Ordering::SeqCst);
+            fastrace::verif::set_callback(None);
+            if let Some(jh) = handle.lock().unwrap().take() {
+                let _ = jh.join();
+            }
+            fastrace::flush();
+            drain(&mut delivered);
+            let expected: Vec<(u128, String)> = ["late-root", "late-child", "late-local"].iter().map(|n| (trace, format!("{n}-{k}"))).collect();
+            let missing: Vec<&String> = expected.iter().filter(|e| delivered.get(*e).copied().unwrap_or(0) == 0).map(|e| &e.1).collect();
+            let dup: Vec<&String> = expected.iter().filter(|e| delivered.get(*e).copied().unwrap_or(0) > 1).map(|e| &e.1).collect();
+            let verdict = if !caught { "delivered-once".to_string() } else if missing.is_empty() && dup.is_empty() { "delivered-once".to_string() } else { format!("VIOLATION missing={:?} duplicated={:?}", missing, dup) };
+            let _ = writeln!(out, "L scenario={} registration-during-drain caught={} => {}", k, caught, verdict);
+            continue;
+        }
         let use_flush = r.chance(1, 2);
         let nthreads = 1 + r.below(3);
         let mut expected: Vec<(u128, String)> = vec![];
@@ -264,4 +323,167 @@ pub fn teardown(seed: u64, n: usize, out: &mut dyn Write) {
     }
     fastrace::flush();
     let _ = writeln!(out, "#stat teardown:scenarios {}", n);
+}
+
+
+// ---------------------------------------------------------------- long-lived spans (C18)
+/// Spans kept open for milliseconds up to more than two seconds, created, handed over and
+/// finished on different threads while many collector cycles pass: the recorded duration must
+/// lie in the bracket measured around creation and drop, the begin time in the wall-clock
+/// window of the creation, and `elapsed()` in the bracket of its own call.
+pub fn longspan(seed: u64, n: usize, out: &mut dyn Write) {
+    fastrace::verif::set_callback(None);
+    let reports: Arc<Mutex<Vec<Vec<SpanRecord>>>> = Arc::new(Mutex::new(Vec::new()));
+    fastrace::set_reporter(CapReporter(reports.clone()), Config::default().report_interval(Duration::from_millis(5)));
+    let mut r = Rng::new(seed);
+    for k in 0..n {
+        let trace = ((seed as u128) << 64) | (0x5000 + k as u128);
+        let root = Span::root(format!("ls-root-{k}"), SpanContext::new(TraceId(trace), SpanId(1)));
+        let durs_ms: Vec<u64> = vec![3 + r.below(10) as u64, 250 + r.below(100) as u64, 1050 + r.below(200) as u64, 2020 + r.below(100) as u64];
+        let mut handles = vec![];
+        for (i, d) in durs_ms.iter().copied().enumerate() {
+            let wall0 = std::time::SystemTime::now();
+            let t_before = Instant::now();
+            let sp = Span::enter_with_parent(format!("ls-{k}-{i}"), &root);
+            let t_after = Instant::now();
+            let wall1 = std::time::SystemTime::now();
+            handles.push(std::thread::spawn(move || {
+                std::thread::sleep(Duration::from_millis(d));
+                let e0 = Instant::now();
+                let el = sp.elapsed();
+                let e1 = Instant::now();
+                let d0 = Instant::now();
+                drop(sp);
+                let d1 = Instant::now();
+                (i, t_before, t_after, wall0, wall1, el, e0, e1, d0, d1)
+            }));
+        }
+        let results: Vec<_> = handles.into_iter().filter_map(|h| h.join().ok()).collect();
+        drop(root);
+        fastrace::flush();
+        let recs: Vec<SpanRecord> = reports.lock().unwrap().drain(..).flatten().collect();
+        let mut bad: Vec<String> = vec![];
+        for (i, t_before, t_after, wall0, wall1, el, e0, e1, d0, d1) in results {
+            let name = format!("ls-{k}-{i}");
+            let Some(rec) = recs.iter().find(|x| x.name == name) else { bad.push(format!("{name}: not delivered")); continue };
+            let lo = d0.duration_since(t_after).as_nanos() as u64;
+            let hi = d1.duration_since(t_before).as_nanos() as u64;
+            let (lo2, hi2) = (lo - lo / 50 - 3000.min(lo), hi + hi / 50 + 20000);
+            if rec.duration_ns < lo2 || rec.duration_ns > hi2 {
+                bad.push(format!("{name}: duration {} outside [{}, {}]", rec.duration_ns, lo2, hi2));
+            }
+            let w0 = wall0.duration_since(std::time::UNIX_EPOCH).map(|x| x.as_nanos() as u64).unwrap_or(0);
+            let w1 = wall1.duration_since(std::time::UNIX_EPOCH).map(|x| x.as_nanos() as u64).unwrap_or(0);
+            if rec.begin_time_unix_ns + 50_000_000 < w0 || rec.begin_time_unix_ns > w1 + 50_000_000 {
+                bad.push(format!("{name}: begin {} outside the wall-clock window [{}, {}]", rec.begin_time_unix_ns, w0, w1));
+            }
+            match el {
+                None => bad.push(format!("{name}: elapsed() is None for a recording span")),
+                Some(x) => {
+                    let elo = e0.duration_since(t_after).as_nanos() as u64;
+                    let ehi = e1.duration_since(t_before).as_nanos() as u64;
+                    let x = x.as_nanos() as u64;
+                    if x + elo / 50 + 3000 < elo || x > ehi + ehi / 50 + 20000 {
+                        bad.push(format!("{name}: elapsed {} outside [{}, {}]", x, elo, ehi));
+                    }
+                }
+            }
+        }
+        let verdict = if bad.is_empty() { "times-consistent".to_string() } else { format!("VIOLATION {}", bad.join("; ")) };
+        let _ = writeln!(out, "T scenario={} spans_ms={:?} => {}", k, durs_ms, verdict);
+    }
+    let _ = writeln!(out, "#stat longspan:scenarios {}", n);
+}
+
+
+// ---------------------------------------------------------------- adapters dropped early (C13 / C14)
+/// what the wrapped future / stream owns is released BEFORE the adapter's span finishes when
+/// the adapter is dropped before completion: spans held by the wrapped object belong to the
+/// trace ("finished before the root"), also when a collector cycle falls right between
+struct Holder {
+    held: Vec<Span>,
+    cycle_on_drop: bool,
+}
+impl Drop for Holder {
+    fn drop(&mut self) {
+        // a collector cycle right when the wrapped object starts to be torn down: whatever
+        // was finished before this point has reached the collector
+        if self.cycle_on_drop {
+            fastrace::verif::run_collector_cycle();
+        }
+        self.held.clear();
+    }
+}
+impl std::future::Future for Holder {
+    type Output = ();
+    fn poll(self: std::pin::Pin<&mut Self>, _cx: &mut std::task::Context<'_>) -> std::task::Poll<()> {
+        std::task::Poll::Pending
+    }
+}
+impl futures_core::Stream for Holder {
+    type Item = ();
+    fn poll_next(self: std::pin::Pin<&mut Self>, _cx: &mut std::task::Context<'_>) -> std::task::Poll<Option<()>> {
+        std::task::Poll::Pending
+    }
+}
+struct NoWake2;
+impl std::task::Wake for NoWake2 {
+    fn wake(self: Arc<Self>) {}
+}
+
+pub fn adrop(seed: u64, n: usize, out: &mut dyn Write) {
+    use std::future::Future;
+    fastrace::verif::set_callback(None);
+    let mut r = Rng::new(seed);
+    for k in 0..n {
+        let cancelable = r.chance(1, 2);
+        let stream = r.chance(1, 2);
+        let cycle_on_drop = r.chance(2, 3);
+        let polls = r.below(3);
+        let other_thread = r.chance(1, 2);
+        let nheld = 1 + r.below(2);
+        let reports: Arc<Mutex<Vec<Vec<SpanRecord>>>> = Arc::new(Mutex::new(Vec::new()));
+        fastrace::verif::install(CapReporter(reports.clone()), Config::default().cancelable(cancelable));
+        let trace = ((seed as u128) << 64) | (0x7000 + k as u128);
+        let root = Span::root(format!("ad-root-{k}"), SpanContext::new(TraceId(trace), SpanId(1)));
+        let mut expected = vec![format!("ad-root-{k}")];
+        let held: Vec<Span> = (0..nheld).map(|i| { expected.push(format!("ad-held-{k}-{i}")); Span::enter_with_parent(format!("ad-held-{k}-{i}"), &root) }).collect();
+        let holder = Holder { held, cycle_on_drop };
+        let waker = std::task::Waker::from(Arc::new(NoWake2));
+        if stream {
+            let mut ad = Box::pin(fastrace_futures::StreamExt::in_span(holder, root));
+            for _ in 0..polls {
+                let mut cx = std::task::Context::from_waker(&waker);
+                let _ = futures_core::Stream::poll_next(ad.as_mut(), &mut cx);
+            }
+            if other_thread { let _ = std::thread::spawn(move || drop(ad)).join(); } else { drop(ad); }
+        } else {
+            let mut ad = Box::pin(fastrace::future::FutureExt::in_span(holder, root));
+            for _ in 0..polls {
+                let mut cx = std::task::Context::from_waker(&waker);
+                let _ = ad.as_mut().poll(&mut cx);
+            }
+            if other_thread { let _ = std::thread::spawn(move || drop(ad)).join(); } else { drop(ad); }
+        }
+        fastrace::verif::run_collector_cycle();
+        fastrace::verif::run_collector_cycle();
+        let batches: Vec<Vec<SpanRecord>> = reports.lock().unwrap().drain(..).collect();
+        let mut bad: Vec<String> = vec![];
+        for name in &expected {
+            let cnt: usize = batches.iter().map(|b| b.iter().filter(|x| x.name == *name).count()).sum();
+            if cnt != 1 {
+                bad.push(format!("{name} delivered {cnt} times"));
+            }
+        }
+        if cancelable {
+            let with: Vec<usize> = batches.iter().enumerate().filter(|(_, b)| b.iter().any(|x| expected.iter().any(|e| x.name == *e))).map(|(i, _)| i).collect();
+            if with.len() > 1 {
+                bad.push(format!("cancelable trace delivered in {} report calls", with.len()));
+            }
+        }
+        let verdict = if bad.is_empty() { "whole-trace".to_string() } else { format!("VIOLATION {}", bad.join("; ")) };
+        let _ = writeln!(out, "D scenario={} cancelable={} stream={} cycle_on_drop={} polls={} other_thread={} held={} => {}",
+            k, cancelable, stream, cycle_on_drop, polls, other_thread, nheld, verdict);
+    }
+    let _ = writeln!(out, "#stat adrop:scenarios {}", n);
 }
